@@ -254,3 +254,212 @@ Example C06_store_example :
   end.
 Proof. vm_compute. repeat split; reflexivity. Qed.
 Print Assumptions C06_store_example.
+
+(* [ext-C06R] ==== from local updates to whole steps: reversibility and conservation over the LITERAL traces ============ *)
+(* Sched/TDVPGlobal.v, Sched/TDVPGlobalProofs.v.  An abstract state type X; `actE e` is the action of the literal event
+   e of the trace, `act (o, s)` the action of a timed update of the object o (node / edge) with SIGNED factor s (half
+   units of dt); run_trace / run_steps fold the actions over a trace / over k consecutive steps.
+   Contracts (hypotheses, nothing is axiomatised):
+     factors_through act actE   an event acts through its (object, signed factor) only; events without time evolution
+                                (Split, Absorb, Move, Cache, Reinit, assertions) leave the abstract state unchanged
+                                (gauge moves do not change the represented state, C03);
+     good                       the set of states on which the local contract is claimed, closed under the updates (for
+                                the real classes: every bond at its full Schmidt rank);
+     act_inverse                on good states the update with factor -s undoes the update with factor s (true for the
+                                exact local flows exp(-i K s dt/2) when the tangent-space projectors are functions of the
+                                represented state, i.e. on full-rank bonds).  It FAILS on rank-deficient bonds, where the
+                                QR completion is arbitrary: the recorded known finding C06-reversal-rank-deficient.
+   "A step with -H" in the model is `neg_trace tr`: the same object (same update path, same orthogonalisation paths,
+   functions of the initial tree only) with H replaced by -H performs the same events with every signed factor negated
+   (K is linear in H); this is what the harness does (algo.hamiltonian := -H, cache rebuilt).  The theorem also states
+   that this second step starts from the end configuration of the first: the first step ends with the centre on
+   update_path[0] and no pending link tensor, and the negated trace passes the schedule checker FROM THAT
+   CONFIGURATION (assertions, adjacency, freshness) and ends on update_path[0] again. *)
+From PTN Require Import Sched.TDVPGlobal Sched.TDVPGlobalProofs.
+
+Theorem C06_second_order_reversible :
+  forall (X : Type) (act : obj * Z -> X -> X) (actE : ev -> X -> X) (good : X -> Prop),
+  factors_through act actE ->
+  (forall o f x, good x -> good (act (o, f) x)) ->
+  (forall o f x, good x -> act (o, (- f)%Z) (act (o, f) x) = x) ->
+  forall t, NoDup (ids t) -> 2 <= size t ->
+  exists tr, trace2 t = Some tr /\
+    (exists u l ini s0 s1 s2,
+       update_path t = Some (u :: l) /\ init_trace t = Some ini /\
+       run t (mk_cst u None [] []) ini = Some s0 /\
+       run t s0 tr = Some s1 /\ centre s1 = u /\ pend s1 = None /\
+       run t s1 (neg_trace tr) = Some s2 /\ centre s2 = u /\ pend s2 = None) /\
+    (forall x, good x -> run_trace X actE (neg_trace tr) (run_trace X actE tr x) = x) /\
+    (forall k x, good x -> run_steps X actE k (neg_trace tr) (run_steps X actE k tr x) = x).
+Proof. exact trace2_reversible_full. Qed.
+Print Assumptions C06_second_order_reversible.
+
+(* the two ingredients: the list lemma (any palindromic trace), and what negation does to the (object, factor) sequence *)
+Theorem C06_palindrome_reversible :
+  forall (X : Type) (act : obj * Z -> X -> X) (actE : ev -> X -> X) (good : X -> Prop),
+  factors_through act actE ->
+  (forall o f x, good x -> good (act (o, f) x)) ->
+  (forall o f x, good x -> act (o, (- f)%Z) (act (o, f) x) = x) ->
+  forall tr, objs tr = rev (objs tr) ->
+  forall x, good x -> run_trace X actE (neg_trace tr) (run_trace X actE tr x) = x.
+Proof. exact palindrome_reversible. Qed.
+Print Assumptions C06_palindrome_reversible.
+
+Theorem C06_negated_step : forall tr,
+  objs (neg_trace tr) = map neg_obj (objs tr) /\ total_dur (neg_trace tr) = (- total_dur tr)%Z /\
+  (forall t s, run t s (neg_trace tr) = run t s tr).
+Proof. intros tr. split; [apply objs_neg|split; [apply total_dur_neg|intros; apply run_neg]]. Qed.
+Print Assumptions C06_negated_step.
+
+(* non-vacuity, and NOTHING is claimed for the first-order scheme: in the shear model (X = Z x Z, node updates are
+   non-commuting shears, edge updates translations; it satisfies the three contracts with good = all states) the
+   second-order step on the chain of C06_example moves (2, 1) and the negated step brings it back, whereas the
+   first-order trace is not a palindrome and its negated step does not return to (2, 1) *)
+Example C06_reversible_example :
+  factors_through shear_act shear_actE /\
+  (forall o f x, shear_act (o, (- f)%Z) (shear_act (o, f) x) = x) /\
+  option_map (fun tr => (run_trace _ shear_actE tr (2, 1)%Z,
+                         run_trace _ shear_actE (neg_trace tr) (run_trace _ shear_actE tr (2, 1)%Z))) (trace2 C06_ex)
+    = Some ((6, 17)%Z, (2, 1)%Z).
+Proof. split; [exact shear_factors|]. split; [exact shear_inverse|]. vm_compute. reflexivity. Qed.
+Print Assumptions C06_reversible_example.
+
+Example C06_first_order_not_reversible_example :
+  option_map (fun tr => list_eqb obj_eqb (objs tr) (rev (objs tr))) (trace1 C06_ex) = Some false /\
+  option_map objs (trace1 C06_ex) =
+    Some [(ONode 2, 2%Z); (OEdge 1 2, (-2)%Z); (ONode 1, 2%Z); (OEdge 0 1, (-2)%Z); (ONode 0, 2%Z)] /\
+  option_map (fun tr => (run_trace _ shear_actE tr (2, 1)%Z,
+                         run_trace _ shear_actE (neg_trace tr) (run_trace _ shear_actE tr (2, 1)%Z))) (trace1 C06_ex)
+    = Some ((8, 5)%Z, (74, -31)%Z).
+Proof. repeat split; vm_compute; reflexivity. Qed.
+Print Assumptions C06_first_order_not_reversible_example.
+
+(* ---- conservation over a whole step and over any number of steps -------------------------------------------------- *)
+(* a quantity q conserved by every event that occurs in the trace is conserved by k consecutive steps (both classes;
+   first order with any tree t' for the reset) *)
+Theorem C06_step_conserves :
+  forall (X Q : Type) (actE : ev -> X -> X) (q : X -> Q) t t' tr,
+  trace1_gen t t' = Some tr \/ trace2 t = Some tr ->
+  (forall e x, In e tr -> q (actE e x) = q x) ->
+  forall k x, q (run_steps X actE k tr x) = q x.
+Proof.
+  intros X Q actE q t t' tr H. apply (steps_conserve X actE Q q t t' tr). destruct H as [H|H]; [left|right; left]; exact H.
+Qed.
+Print Assumptions C06_step_conserves.
+
+(* the instantiation with C06_local_update_conserves: states are columns of the full space; contract `local_form e`:
+   for every state x there are an isometric embedding E (E^+E = 1), a local tensor A with x = E A, and a unitary U
+   commuting with K = E^+ H E such that the event maps x to E (U A) (U = exp(-+iKt) for a timed update with Hermitian
+   H -- unitarity of U is where Hermiticity enters --, U = 1 for gauge events).  Then <x|x> and <x|H|x> are conserved
+   by k steps of either class on every tree. *)
+Theorem C06_step_conserves_norm_energy :
+  forall (M : nat -> nat -> Type) (mul : forall a b c : nat, M a b -> M b c -> M a c)
+         (adj : forall a b : nat, M a b -> M b a) (one : forall n : nat, M n n),
+  (forall (a b c d : nat) (x : M a b) (y : M b c) (z : M c d), mul a b d x (mul b c d y z) = mul a c d (mul a b c x y) z) ->
+  (forall (a b : nat) (x : M a b), mul a a b (one a) x = x) ->
+  (forall (a b c : nat) (x : M a b) (y : M b c), adj a c (mul a b c x y) = mul c b a (adj b c y) (adj a b x)) ->
+  forall (D : nat) (H : M D D) (actE : ev -> M D 1 -> M D 1) t t' tr,
+  trace1_gen t t' = Some tr \/ trace2 t = Some tr ->
+  (forall e, In e tr -> local_form M mul adj one D H actE e) ->
+  forall k x,
+    norm2 M mul adj D (run_steps (M D 1) actE k tr x) = norm2 M mul adj D x /\
+    energy M mul adj D H (run_steps (M D 1) actE k tr x) = energy M mul adj D H x.
+Proof.
+  intros M mul adj one A1 A2 A3 D H actE t t' tr Ht. apply (steps_conserve_norm_energy M mul adj one A1 A2 A3 D H actE t t' tr).
+  destruct Ht as [Ht|Ht]; [left|right; left]; exact Ht.
+Qed.
+Print Assumptions C06_step_conserves_norm_energy.
+
+(* local_form, norm2, energy unfolded *)
+Theorem C06_local_form_meaning :
+  forall (M : nat -> nat -> Type) (mul : forall a b c : nat, M a b -> M b c -> M a c)
+         (adj : forall a b : nat, M a b -> M b a) (one : forall n : nat, M n n) D (H : M D D) (actE : ev -> M D 1 -> M D 1) e,
+  (local_form M mul adj one D H actE e <->
+   forall x : M D 1, exists (N : nat) (E : M D N) (U : M N N) (A : M N 1),
+      mul N D N (adj D N E) E = one N /\
+      mul N N N (adj N N U) U = one N /\
+      mul N N N U (mul N D N (adj D N E) (mul D D N H E)) = mul N N N (mul N D N (adj D N E) (mul D D N H E)) U /\
+      x = mul D N 1 E A /\ actE e x = mul D N 1 E (mul N N 1 U A)) /\
+  (forall x, norm2 M mul adj D x = mul 1 D 1 (adj D 1 x) x) /\
+  (forall x, energy M mul adj D H x = mul 1 D 1 (adj D 1 x) (mul D D 1 H x)).
+Proof. intros. split; [reflexivity|split; reflexivity]. Qed.
+Print Assumptions C06_local_form_meaning.
+
+(* non-vacuity: 1 x 1 matrices over the Gaussian integers, every timed event multiplies by the unit i: laws and contract
+   hold; three second-order steps on the chain of C06_example turn (1 + 2i) into (2 - i) (27 = 3 mod 4 timed events), norm
+   and energy (H = 3) unchanged *)
+Example C06_conserves_example :
+  (forall e, local_form gM gmul gadj gone 1 (3, 0)%Z gactE e) /\
+  option_map (fun tr => let y := run_steps (gM 1 1) gactE 3 tr (1, 2)%Z in
+                        (y, norm2 gM gmul gadj 1 y, energy gM gmul gadj 1 (3, 0)%Z y)) (trace2 C06_ex)
+    = Some ((2, -1)%Z, (5, 0)%Z, (15, 0)%Z) /\
+  (norm2 gM gmul gadj 1 (1, 2)%Z, energy gM gmul gadj 1 (3, 0)%Z (1, 2)%Z) = ((5, 0)%Z, (15, 0)%Z).
+Proof. split; [exact (g_local_form (3, 0)%Z)|]. split; vm_compute; reflexivity. Qed.
+Print Assumptions C06_conserves_example.
+(* ---- two nodes with a saturated bond: one step is the exact flow over the full time step (PARTIAL) ------------------- *)
+(* flow s = exp(-i H s dt/2) on the whole space, an abstract one-parameter group: flow (s + t) = flow s o flow t, flow 0 =
+   id (s in half units of dt).  Contract `saturated` (ASSUMED, this is what makes the theorem partial): on the two-node
+   tree the update of each of the three objects (node a, node b, the link tensor on the edge) with signed factor f IS
+   flow f.  Justification (not formalised: it needs the functional calculus E exp(-i E^+HE t) E^+ = exp(-iHt) for a
+   unitary E): when the bond dimension equals both physical dimensions the isometric environment E of every object is
+   square, hence unitary, the tangent-space projector E E^+ is the identity, and the forward site flow exp(-iHt) and the
+   backward link flow exp(+iHt) are flows of the SAME H on the whole space (C07_two_node_projection is the case E = 1).
+   Conclusion over the LITERAL traces: site b, link, site a (first order: +2, -2, +2; second order: +1, -1, +2, -1, +1)
+   compose to flow 2 = exp(-iH dt); k steps to exp(-iH k dt). *)
+Theorem C06_two_node_saturated_exact_partial :
+  forall (X : Type) (act : obj * Z -> X -> X) (actE : ev -> X -> X) (flow : Z -> X -> X),
+  factors_through act actE ->
+  (forall s t x, flow (s + t)%Z x = flow s (flow t x)) -> (forall x, flow 0%Z x = x) ->
+  forall a b, a <> b ->
+  (forall o f x, o = ONode a \/ o = ONode b \/ o = mk_edge a b -> act (o, f) x = flow f x) ->
+  forall x,
+  (exists tr, trace1 (RNode a [RNode b []]) = Some tr /\
+     objs tr = [(ONode b, 2); (mk_edge a b, -2); (ONode a, 2)]%Z /\
+     run_trace X actE tr x = flow 2%Z x /\ forall k, run_steps X actE k tr x = flow (2 * Z.of_nat k)%Z x) /\
+  (exists tr, trace2 (RNode a [RNode b []]) = Some tr /\
+     objs tr = [(ONode b, 1); (mk_edge a b, -1); (ONode a, 2); (mk_edge a b, -1); (ONode b, 1)]%Z /\
+     run_trace X actE tr x = flow 2%Z x /\ forall k, run_steps X actE k tr x = flow (2 * Z.of_nat k)%Z x).
+Proof.
+  intros X act actE flow G FA F0 a b Hne S x. split.
+  - destruct (two_node_first_order_exact X act actE flow G FA F0 a b Hne S x) as [tr [H1 [H2 _]]].
+    exists tr. split; [exact H1|]. split; [exact H2|].
+    assert (Hs : forall y, run_trace X actE tr y = flow 2%Z y).
+    { intros y. destruct (two_node_first_order_exact X act actE flow G FA F0 a b Hne S y) as [tr' [H1' [_ H3']]].
+      assert (tr' = tr) by congruence. subst tr'. exact H3'. }
+    split; [apply Hs|]. intros k. apply (run_steps_flow X actE flow FA F0). exact Hs.
+  - destruct (two_node_second_order_exact X act actE flow G FA F0 a b Hne S x) as [tr [H1 [H2 _]]].
+    exists tr. split; [exact H1|]. split; [exact H2|].
+    assert (Hs : forall y, run_trace X actE tr y = flow 2%Z y).
+    { intros y. destruct (two_node_second_order_exact X act actE flow G FA F0 a b Hne S y) as [tr' [H1' [_ H3']]].
+      assert (tr' = tr) by congruence. subst tr'. exact H3'. }
+    split; [apply Hs|]. intros k. apply (run_steps_flow X actE flow FA F0). exact Hs.
+Qed.
+Print Assumptions C06_two_node_saturated_exact_partial.
+
+(* the general form: ANY trace all of whose timed updates are exact flows acts as the flow over its total signed duration
+   (= 2 half units = dt for the three classes on every tree: C07_total_duration and its one-site analogues) *)
+Theorem C06_exact_trace :
+  forall (X : Type) (act : obj * Z -> X -> X) (actE : ev -> X -> X) (flow : Z -> X -> X),
+  factors_through act actE ->
+  (forall s t x, flow (s + t)%Z x = flow s (flow t x)) -> (forall x, flow 0%Z x = x) ->
+  forall tr, (forall o f, In (o, f) (objs tr) -> forall x, act (o, f) x = flow f x) ->
+  forall x, run_trace X actE tr x = flow (total_dur tr) x.
+Proof. exact exact_trace. Qed.
+Print Assumptions C06_exact_trace.
+
+(* non-vacuity: X = Z x Z, flow s (p, q) = (p + s q, q) (a one-parameter group), every update acts as the flow *)
+Definition C06_flow (s : Z) (x : Z * Z) : Z * Z := (fst x + s * snd x, snd x)%Z.
+Definition C06_flow_act (p : obj * Z) (x : Z * Z) : Z * Z := C06_flow (snd p) x.
+Definition C06_flow_actE (e : ev) (x : Z * Z) : Z * Z := run_objs _ C06_flow_act (obj_of e) x.
+
+Example C06_two_node_example :
+  factors_through C06_flow_act C06_flow_actE /\
+  (forall s t x, C06_flow (s + t)%Z x = C06_flow s (C06_flow t x)) /\ (forall x, C06_flow 0%Z x = x) /\
+  option_map (fun tr => run_steps _ C06_flow_actE 3 tr (1, 1)%Z) (trace2 (RNode 0 [RNode 1 []])) = Some (7, 1)%Z /\
+  option_map (fun tr => run_steps _ C06_flow_actE 3 tr (1, 1)%Z) (trace1 (RNode 0 [RNode 1 []])) = Some (7, 1)%Z.
+Proof.
+  split; [intros e x; reflexivity|]. split; [intros s t [p q]; unfold C06_flow; cbn [fst snd]; f_equal; ring|].
+  split; [intros [p q]; unfold C06_flow; cbn [fst snd]; f_equal; ring|]. split; vm_compute; reflexivity.
+Qed.
+Print Assumptions C06_two_node_example.
+(* [/ext-C06R] *)
